@@ -19,6 +19,7 @@ import (
 	"pgregory.net/rapid"
 
 	"github.com/free5gc/go-upf/internal/verif/fullstack"
+	"github.com/free5gc/go-upf/internal/verif/rxwindow"
 	"github.com/free5gc/go-upf/internal/verif/stack"
 	"github.com/free5gc/go-upf/internal/verif/vcore"
 )
@@ -32,6 +33,7 @@ func TestMain(m *testing.M) {
 		"full stack (real PfcpServer + real Gtp5g driver + periodic server + netlink listener + simulated kernel) driven by scripts with drawn load parameters: sessions 1..1000, periodic URRs per session 0..4 over 1..3 periods, kernel latency 0..200 us, bursts of 0..600 buffer notifications (spread over the sessions, or all for one session and PDR so that its packet queue of 512 overflows) "+
 			"placed before / during / after rule changes, ticks placed before / inside / after a bulk removal (re-association of the node or mass deletion); generator biased towards the capacity products named in the quantifier (timer events posted during one bulk removal around 512, sessions reported per tick around 128, notifications in flight around 128). "+
 			"One script in three is a wall-clock schedule with real tickers instead (2..5 sessions over measurement periods of 1..3 s, staggered establishment, deletions at drawn offsets, usage queries of the periodic server slowed to 0..700 ms), built around 'a group's own tick is queued behind the removal of its last URR while another group's query is in progress'. "+
+			"One script in eight (and one fixed) is a burst of 64-400 requests whose retention timers all fire while the loop is parked in a data-plane call (package rxwindow; the loop's timer queue holds 64 expiries): every key must be executed again afterwards. A tick placed inside a re-association can have its usage query held in the simulated kernel until the removal has filled the periodic server's queue, and fail as a whole. "+
 			"Each script runs in its own subprocess (a wedged UPF cannot be torn down). Oracle: after the script a Heartbeat must be answered; a violation is reported only with a deadlock certificate: after 10 s without answer a goroutine dump is taken and the wait-for graph over the UPF's long-lived goroutines "+
 			"(event loop, periodic server, netlink mux/listener, ticker goroutines) is built from the blocked channel operations; a cycle (through the event loop, or among the report producers alone, seen again 2 s later) can never resolve. No cycle = inconclusive (the whole run then exits 2). "+
 			"After the script the listener and the periodic server must drain as well (sentinel tick observed in the kernel log within 20 s), else the same analysis runs. "+
@@ -62,6 +64,9 @@ type Script struct {
 	// (ENOENT, some of its URRs are gone by the time it is evaluated)
 	TickSlowMs int  `json:"tick_slow_ms,omitempty"`
 	QueryErr   bool `json:"query_err,omitempty"`
+	// Window, when set, replaces the script by a history of package rxwindow: a burst of requests whose retention timers all fire
+	// while the loop is busy (its timer queue holds 64 expiries); every request made afterwards must be answered
+	Window *rxwindow.Case `json:"window,omitempty"`
 	// Real, when non-empty, replaces the injected ticks by a wall-clock schedule with real tickers (periods of 1..3 s)
 	Real []RealEv `json:"real,omitempty"`
 }
@@ -76,18 +81,20 @@ type RealEv struct {
 }
 
 type Result struct {
-	OK           bool     `json:"ok"`
-	Cycle        string   `json:"cycle,omitempty"`
-	States       []string `json:"states,omitempty"`
-	Inconclusive string   `json:"inconclusive,omitempty"`
-	Crash        string   `json:"crash,omitempty"`
-	TimerEvents  int      `json:"timer_events"`   // events the loop posts to the periodic server in one turn
-	Reported     int      `json:"reported"`       // sessions one tick reports
-	InFlight     int      `json:"in_flight"`      // notifications written while the loop was busy
-	Lost         string   `json:"lost,omitempty"` // a notification consumed by the listener that never reached its packet queue
-	HeldFull     bool     `json:"held_full,omitempty"` // the tick's query was inside the data plane while the periodic server's queue filled up
-	BusyRemovals int      `json:"busy_removals"`  // real-ticker scripts: deletions landing while the periodic server is inside a slow query
-	WallMs       int64    `json:"wall_ms"`
+	OK            bool     `json:"ok"`
+	Cycle         string   `json:"cycle,omitempty"`
+	States        []string `json:"states,omitempty"`
+	Inconclusive  string   `json:"inconclusive,omitempty"`
+	Crash         string   `json:"crash,omitempty"`
+	TimerEvents   int      `json:"timer_events"`         // events the loop posts to the periodic server in one turn
+	Reported      int      `json:"reported"`             // sessions one tick reports
+	InFlight      int      `json:"in_flight"`            // notifications written while the loop was busy
+	Lost          string   `json:"lost,omitempty"`       // a notification consumed by the listener that never reached its packet queue
+	Unanswered    string   `json:"unanswered,omitempty"` // a request that is never answered although the loop is alive
+	TimerExpiries int      `json:"timer_expiries,omitempty"`
+	HeldFull      bool     `json:"held_full,omitempty"` // the tick's query was inside the data plane while the periodic server's queue filled up
+	BusyRemovals  int      `json:"busy_removals"`       // real-ticker scripts: deletions landing while the periodic server is inside a slow query
+	WallMs        int64    `json:"wall_ms"`
 }
 
 var periodSecs = []uint32{3600, 7200, 10800}
@@ -286,6 +293,18 @@ func analyse(dump string) (cycle string, states []string) {
 func runScript(s Script) (res Result) {
 	t0 := time.Now()
 	defer func() { res.WallMs = time.Since(t0).Milliseconds() }()
+	if s.Window != nil {
+		v, st := rxwindow.Run(*s.Window)
+		res.TimerExpiries = st.Keys
+		if v == nil {
+			res.OK = true
+		} else if strings.HasPrefix(v.Key, "crash") {
+			res.Crash = v.Key
+		} else {
+			res.Unanswered = v.Key + ": " + v.Msg
+		}
+		return
+	}
 	stack.BarrierTimeout = 10 * time.Second
 	fo := fullstack.FullOpts{Nodes: 1, Gtpu: false}
 	if s.RetransMs > 0 && len(s.Real) == 0 {
@@ -705,6 +724,8 @@ func classify(s Script, r Result) *vcore.Violation {
 		return nil
 	case r.Crash != "":
 		return vcore.Violatef(r.Crash, "script %s: UPF fatal exit", vcore.JSON(s))
+	case r.Unanswered != "":
+		return vcore.Violatef("request-never-answered", "script %s: %s", vcore.JSON(s), r.Unanswered)
 	case r.Lost != "":
 		return vcore.Violatef("report-lost", "script %s: %s", vcore.JSON(s), r.Lost)
 	case r.Cycle != "":
@@ -744,6 +765,10 @@ func account(s Script, r Result) {
 		vcore.E.Exclude("inconclusive")
 		vcore.E.Note(r.Inconclusive)
 	}
+	if s.Window != nil && r.TimerExpiries > 64 {
+		vcore.E.Class("more_than_64_timer_expiries_while_the_loop_was_busy")
+		vcore.E.NonTrivial(vcore.JSON(s))
+	}
 	if r.HeldFull {
 		vcore.E.Class("tick_query_in_the_data_plane_while_the_timer_queue_filled_up")
 	}
@@ -771,6 +796,7 @@ func fixed() []Script {
 		{Name: "burst-below-capacity-during-mods", Sessions: 10, URRs: 0, Periods: 1, Burst: 100, BurstAt: "mods", Mods: 20, LatencyUs: 100, Tick: "none", Bulk: "none"},
 		{Name: "slow-failing-tick-inside-reassoc", Sessions: 60, URRs: 10, Periods: 1, Tick: "inside", Bulk: "reassoc", TickSlowMs: 5000, QueryErr: true},
 		{Name: "slow-tick-inside-reassoc", Sessions: 110, URRs: 5, Periods: 2, Tick: "inside", Bulk: "reassoc", TickSlowMs: 5000},
+		{Name: "150-retention-timers-fire-while-the-loop-is-busy", Window: &rxwindow.Case{RetransMs: 20, MaxRetrans: 1, Evs: []rxwindow.Ev{{Kind: "assoc", Peer: 0, Seq: 77}}, Many: 150, BusyMs: 300}},
 		{Name: "massdel-with-tick", Sessions: 200, URRs: 2, Periods: 1, Tick: "inside", Bulk: "massdel"},
 		{Name: "burst-idle-600", Sessions: 5, URRs: 1, Periods: 1, Burst: 600, BurstAt: "idle", Tick: "after", Bulk: "none"},
 		{Name: "silent-burst-during-mods", Sessions: 4, URRs: 1, Periods: 1, LatencyUs: 200, Burst: 100, BurstAt: "mods", Mods: 30, Tick: "before", Bulk: "none", Silent: true},
@@ -823,6 +849,10 @@ func genReal(t *rapid.T) Script {
 func gen(t *rapid.T) Script {
 	if rapid.IntRange(0, 2).Draw(t, "real") == 0 {
 		return genReal(t)
+	}
+	if rapid.IntRange(0, 7).Draw(t, "window") == 0 {
+		return Script{Window: &rxwindow.Case{RetransMs: rapid.SampledFrom([]int{20, 60}).Draw(t, "retrans_ms"), MaxRetrans: uint8(rapid.IntRange(0, 2).Draw(t, "max_retrans")),
+			Evs: []rxwindow.Ev{{Kind: "assoc", Peer: 0, Seq: 77}}, Many: rapid.SampledFrom([]int{64, 65, 100, 200, 400}).Draw(t, "many"), BusyMs: rapid.SampledFrom([]int{30, 150, 300}).Draw(t, "busy_ms")}}
 	}
 	s := Script{
 		Sessions:  rapid.OneOf(rapid.IntRange(1, 60), rapid.IntRange(100, 300), rapid.SampledFrom([]int{120, 129, 200, 257, 400})).Draw(t, "sessions"),
